@@ -65,7 +65,7 @@ func coqKey(pkg, name string) string { return "(" + coqStr(pkg) + "," + coqStr(n
 
 func coqFTy(t FTy) string {
 	switch t.Alt {
-	case "object", "oneof", "enum":
+	case "object", "oneof", "enum", "flatten":
 		return fmt.Sprintf("(TRef %s %s)", vh.CoqString(t.Alt), coqKey(t.Pkg, t.Name))
 	case "array":
 		return "(TArray " + coqFTy(*t.Item) + ")"
@@ -113,6 +113,14 @@ func coqAnns(im *Img) string {
 	q := make([]string, len(im.Anns))
 	for i, a := range im.Anns {
 		q[i] = fmt.Sprintf("(%s, (%s, %d))", coqKey(a.Pkg, a.Name), coqStr(a.Entity), a.Part)
+	}
+	return "[" + strings.Join(q, ";") + "]"
+}
+
+func coqEntObs(es []EntObs) string {
+	q := make([]string, len(es))
+	for i, e := range es {
+		q[i] = fmt.Sprintf("(%s, %s, %s)", coqStr(e.Name), coqStr(e.Schema), coqStrs(e.Events))
 	}
 	return "[" + strings.Join(q, ";") + "]"
 }
@@ -192,13 +200,29 @@ func stageKind(status string) int {
 // ---------------------------------------------------------------- the declaration as a decl_package term
 
 // coqDeclPackage renders what the generator wrote as j5s: services, methods (verb, full path split at '/',
-// request and response property names) and publish topics. Property types are not part of the comparison.
+// request and response property names) and publish topics. The property TYPES and the other schemas of the
+// package (dp_schemas) are taken from the observed source API (the declaration model does not translate j5s
+// types), so that the hypotheses of C16_full can be evaluated on the package (valid_package_b).
 // extra reports declarations that add services of their own (entities, non-publish topics).
-func coqDeclPackage(p *gPackage) (term string, extra bool) {
-	props := func(ps []gProp) string {
+func coqDeclPackage(p *gPackage, im *Img) (term string, extra bool) {
+	byKey := map[[2]string]Schema{}
+	for _, s := range im.Schemas {
+		byKey[[2]string{s.Pkg, s.Name}] = s
+	}
+	method := map[[2]string]bool{}
+	props := func(ps []gProp, key [2]string) string {
+		method[key] = true
+		obs := map[string]FTy{}
+		for _, q := range byKey[key].Props {
+			obs[q.JSON] = q.Ty
+		}
 		q := make([]string, len(ps))
 		for i, pr := range ps {
-			q[i] = fmt.Sprintf("{| p_json := %s; p_ty := TScalar \"any\" |}", coqStr(pr.Name))
+			ty := "TScalar \"any\""
+			if t, ok := obs[pr.Name]; ok {
+				ty = coqFTy(t)
+			}
+			q[i] = fmt.Sprintf("{| p_json := %s; p_ty := %s |}", coqStr(pr.Name), ty)
 		}
 		return "[" + strings.Join(q, ";") + "]"
 	}
@@ -209,10 +233,11 @@ func coqDeclPackage(p *gPackage) (term string, extra bool) {
 			full := path.Join(sv.BasePath, m.Path)
 			resp := "None"
 			if !m.NoResp {
-				resp = "(Some " + props(m.Resp) + ")"
+				resp = "(Some " + props(m.Resp, [2]string{p.Pkg + ".service", m.Name + "Response"}) + ")"
 			}
 			ms[k] = fmt.Sprintf("{| df_name := %s; df_verb := %d; df_parts := %s; df_req := %s; df_resp := %s |}",
-				coqStr(m.Name), verbArm[strings.ToLower(m.Verb)], coqStrs(strings.Split(full, "/")), props(m.Req), resp)
+				coqStr(m.Name), verbArm[strings.ToLower(m.Verb)], coqStrs(strings.Split(full, "/")),
+				props(m.Req, [2]string{p.Pkg + ".service", m.Name + "Request"}), resp)
 		}
 		svcs[i] = fmt.Sprintf("(%s, [%s])", coqStr(sv.Name), strings.Join(ms, ";"))
 	}
@@ -227,7 +252,13 @@ func coqDeclPackage(p *gPackage) (term string, extra bool) {
 	if p.Entity != nil {
 		extra = true
 	}
-	term = fmt.Sprintf("{| dp_pkg := %s; dp_services := [%s]; dp_topics := [%s]; dp_schemas := [] |}",
-		coqStr(p.Pkg), strings.Join(svcs, ";"), strings.Join(tops, ";"))
+	var others []string
+	for _, s := range im.Schemas {
+		if !method[[2]string{s.Pkg, s.Name}] {
+			others = append(others, coqSchema(s))
+		}
+	}
+	term = fmt.Sprintf("{| dp_pkg := %s; dp_services := [%s]; dp_topics := [%s]; dp_schemas := [%s] |}",
+		coqStr(p.Pkg), strings.Join(svcs, ";"), strings.Join(tops, ";"), strings.Join(others, ";\n    "))
 	return term, extra
 }
